@@ -87,6 +87,10 @@ func (i ImportNames) TypeName(t types.Type) string {
 	case *types.Basic:
 		return typ.Name()
 	case *types.Named:
+		if typ.Obj().Pkg() == nil {
+			// A predeclared type such as "error".
+			return typ.Obj().Name()
+		}
 		if pkgName, ok := i[typ.Obj().Pkg().Path()]; ok {
 			return fmt.Sprintf("%v.%v", pkgName, typ.Obj().Name())
 		}
@@ -101,6 +105,9 @@ func (i ImportNames) TypeName(t types.Type) string {
 func (i ImportNames) IsExternal(t types.Type) bool {
 	switch typ := DerefPtr(t).(type) {
 	case *types.Named:
+		if typ.Obj().Pkg() == nil {
+			return false
+		}
 		_, ok := i[typ.Obj().Pkg().Path()]
 		return ok
 	default:
